@@ -192,6 +192,31 @@ pub fn exec(op: &str, a: &[Vec<u8>]) -> Option<Resp> {
             }
             rep(&acc.finish(), 1)
         }
+        "sm.chain" => {
+            if a[0].len() != 32 || a[1].len() % 65 != 0 {
+                return Some(Resp::Rej);
+            }
+            let mut q = need!(Aff::decompress(&a32(&a[0])));
+            let mut r = q;
+            let mut o = vec![];
+            for st in a[1].chunks(65) {
+                let s = need!(scalar_int(&st[1..33]));
+                let t = need!(scalar_int(&st[33..65]));
+                let prev = q;
+                q = match st[0] % 8 {
+                    0 => q.mul(&s),
+                    1 => q.mul(&s).add(&Aff::basepoint().mul(&t)),
+                    2 | 3 => q.mul(&s).add(&r.mul(&t)),
+                    4 => q.add(&r),
+                    5 => Aff::basepoint().mul(&s).add(&q),
+                    6 => q.neg(),
+                    _ => q.mul(&s).sub(&r.mul(&t)),
+                };
+                r = prev;
+                o.extend_from_slice(&q.compress());
+            }
+            Resp::Ok(o)
+        }
         "sm.precomp" => {
             let variant = a[0][0];
             let sp = need!(split32(&a[1]));
